@@ -7,13 +7,14 @@ mod plain_date_time;
 mod zoneddatetime;
 
 mod options {
-    use crate::{builtins::TZ_PROVIDER, options::RelativeTo, TemporalError, TemporalResult};
+    use crate::{builtins::TZ_PROVIDER, options::RelativeTo, TemporalResult};
 
     impl RelativeTo {
         pub fn try_from_str(source: &str) -> TemporalResult<Self> {
             let provider = TZ_PROVIDER
                 .lock()
-                .map_err(|_| TemporalError::general("Unable to acquire lock"))?;
+                // NOTE: A panic in an earlier call poisons the lock; the provider is still usable.
+                .unwrap_or_else(std::sync::PoisonError::into_inner);
 
             Self::try_from_str_with_provider(source, &*provider)
         }
